@@ -21,6 +21,16 @@ NA = {
 PENDING = "static rule designed in DESIGN section 3; check not yet registered (under construction)"
 
 CHECKS = {
+ "C10": {
+  "text": "Decides, on every path of the current sources, the presence of the rejection mechanisms the property depends on: "
+          "guarded-insert typestate for the inline-recursion set and for duplicate assign bindings, redefinition guard on both "
+          "tables before every add_defun/add_inline (combinator-chain analysis), strict-dialect unbound-identifier guard "
+          "(edge polarity), and reporting/propagation of the toposort deadlock. Structural clause only.",
+  "note": "Does not decide that every use position reaches these mechanisms (macro output, evaluator paths), nor termination in "
+          "general. One reviewed exception (tables/c10_exceptions.json).",
+  "technique": "MIR dominance / edge-polarity rules + Result-combinator chain analysis",
+  "design": "3.6",
+ },
  "C11": {
   "text": "Sibling comparison on the type-checked program: the functions that derive optimiser options from the detected "
           "dialect and feed compile_file are discovered, their boolean setter arguments are recovered symbolically from MIR "
